@@ -1,5 +1,8 @@
 """C13 — the collector implements guard reachability exactly (DESIGN.md §4 C13)."""
 import itertools
+import shutil
+import subprocess
+from concurrent.futures import ThreadPoolExecutor
 from . import common
 
 LEAN_TARGETS = ["TsrunVerif.Props.C13"]
@@ -339,6 +342,57 @@ def run(ctx):
         if "|" in g:
             distinct.add(g)
     ctx.cov["distinct_nontrivial"] = len(distinct)
+    # ---- handles that outlive their heap, under valgrind memcheck: a read or write through a freed chunk is invisible in-process
+    vg = shutil.which("valgrind")
+    rng = ctx.rng
+    after = []
+    for i in range(40 if ctx.tier == "quick" else 600):
+        nobj = rng.choice([1, 2, 5, 40, 256, 257, 300])
+        ops = ["T%d" % rng.choice([0, 1, 100]), "G"] + ["A0"] * nobj
+        for _ in range(rng.randint(0, 4)):
+            ops.append("L%d,%d" % (rng.randrange(nobj), rng.randrange(nobj)))
+        if rng.random() < 0.5:
+            ops.append("C")
+        ops.append("H")
+        nh = nobj
+        for _ in range(rng.randint(3, 14)):
+            h = rng.randrange(nh)
+            k = rng.random()
+            if k < 0.45:
+                ops.append("K%d" % h); nh += 1
+            elif k < 0.6:
+                ops.append("W%d,%d" % (h, rng.randint(1, 9)))
+            elif k < 0.7:
+                ops.append("L%d,%d" % (h, rng.randrange(nh)))
+            elif k < 0.8:
+                ops.append("g0,%d" % h)
+            elif k < 0.9:
+                ops.append("S")
+            else:
+                ops.append("D0")
+        after.append(";".join(ops))
+    after += [l for l in lines if ";H" in l][: (30 if ctx.tier == "quick" else 400)]
+    if vg:
+        chunks = [after[i::common.NCPU] for i in range(common.NCPU)]
+
+        def run_chunk(ch):
+            if not ch:
+                return ch, 0, ""
+            try:
+                pr = subprocess.run([vg, "-q", "--error-exitcode=9", "--leak-check=no", "--num-callers=12", common.HARNESS_BIN, "heap"], input="\n".join(ch) + "\n",
+                                    stdout=subprocess.PIPE, stderr=subprocess.PIPE, text=True, env=common.env_offline(), timeout=3000)
+                return ch, pr.returncode, pr.stderr
+            except subprocess.TimeoutExpired:
+                return ch, -99, "TIMEOUT"
+        with ThreadPoolExecutor(max_workers=common.NCPU) as ex:
+            for ch, rc, err in ex.map(run_chunk, chunks):
+                ctx.cov["evaluations"] += len(ch)
+                if ch and (rc != 0 or err.strip()):
+                    ctx.prop_fail("memcheck: valgrind reports an invalid memory access in a history with handles that outlive their heap (rc=%s)" % rc,
+                                  {"valgrind": err[:3000], "histories_in_chunk": ch[:6]})
+        ctx.notes.append("memcheck: valgrind present, %d histories with operations after the heap was dropped" % len(after))
+    else:
+        ctx.notes.append("memcheck: valgrind NOT available - use-after-free behind a dropped heap is not observable")
     ctx.cov["rule"] = ("histories over the public Heap/Guard/Gc API: 3 corpus witnesses; every sequence of <=%d ops over a %d-op alphabet "
                        "(2 guards, 3 handles) after each of %d prefixes (%d histories, exhaustive); random histories of 8..70 ops over <=4 guards/<=7 handles "
                        "with thresholds {0,1,2,3,5,7,100}, stale handles and heap drop; long histories with 300..1500 objects and up to 40 guards "
